@@ -192,6 +192,10 @@ func (rd *redisDict) get(key string) (value any, exists bool) {
 
 func (rd *redisDict) pickRandomItems(count, sparseThreshold int) (items []*redisDictItem) {
 	items = make([]*redisDictItem, 0, count)
+	if rd.count == 0 {
+		// nothing to pick from (the sampling loop below would never end)
+		return
+	}
 
 	// Algorithm that is expensive when sparseness is high; we rely on
 	// the hash function to reduce that possibility.
